@@ -149,9 +149,8 @@ static psSize_t g_infolen, g_len;
 static int g_expand;
 int32_t psHkdfExpand(psCipherType_e hmacAlg, const unsigned char *prk, psSize_t prkLen, const unsigned char *info, psSize_t infoLen,
     unsigned char *okm, psSize_t okmLen);
-# define psHkdfExpand psHkdfExpand__real
+/* (the definition of psHkdfExpand in the derived copy is renamed by the spec) */
 # include "crypto/digest/hkdf.c"
-# undef psHkdfExpand
 int32_t psHmac(psCipherType_e type, const unsigned char *key, psSize_t keyLen, const unsigned char *buf, uint32_t len,
     unsigned char hash[MAX_HASHLEN])
 {
@@ -187,6 +186,11 @@ VF_MAIN
     vf_bytes((unsigned char *) LABEL, 8);
     vf_bytes(CTX, 8);
     VF_ASSUME(ll >= 1 && ll <= 8 && cl <= 8);
+#ifdef VF_DEBUG_CONCRETE
+    ll = 1;
+    cl = 0;
+    length = 32;
+#endif
 
     rc = psHkdfExpandLabel(NULL, HMAC_SHA256, PRK, HL, LABEL, ll, CTX, cl, length, OUT);
 
